@@ -1011,6 +1011,8 @@ class C12(ServerProp):
                 p[0] = "d"       # a download whose endpoint sends unacceptable requests in the middle of it: the same outcome is due
             if p[0] == "U":
                 p[0] = "u"       # an upload whose client lost the first acknowledgement of every window: the same outcome is due
+            if p[0] == "V":
+                p[0] = "u"       # an upload whose endpoint also sends undecodable look-alikes of DATA blocks: the same outcome is due
             if p[0] == "m":
                 # the served file was replaced behind the server's back (such scenarios run strictly in list order)
                 files["srv/" + p[1]] = content(":".join(p[2:]))
